@@ -306,8 +306,11 @@ def write_evidence(ctx, n_viol):
         "wall_s": round(ctx.elapsed(), 2),
         "violations": n_viol,
     }
-    (ROOT / "evidence").mkdir(exist_ok=True)
-    (ROOT / "evidence" / f"{ctx.prop}.json").write_text(json.dumps(ev, indent=1, default=str) + "\n")
+    # our own mutant/seed runs (tools/mutant.sh, tools/seedcheck.py) point VERIF_EVIDENCE_DIR at their scratch
+    # directory so that the committed evidence always describes a run against /repo
+    evdir = Path(os.environ.get("VERIF_EVIDENCE_DIR") or (ROOT / "evidence"))
+    evdir.mkdir(exist_ok=True, parents=True)
+    (evdir / f"{ctx.prop}.json").write_text(json.dumps(ev, indent=1, default=str) + "\n")
 
 
 def standard_obligations(ctx, theorems, extra_targets=(), extra_audit=None):
